@@ -28,6 +28,31 @@ type Client struct {
 	Name string
 	Svc  *client.Service
 	Cfg  *v1.ClientCommonConfig
+	// index into Host.Conns at the moment the client was started: the first connection to the bind port
+	// created after it is this client's (first) control connection
+	connMark int
+}
+
+// InUseWorkConns returns the open server-side connections on the bind port that are not a client's first
+// (control) connection and on which the server has written something (StartWorkConn / visitor answer): the
+// work connections currently carrying a tunnel. Idle pooled work connections are not included.
+func (w *World) InUseWorkConns() []*vnet.StreamConn {
+	ctl := map[*vnet.StreamConn]bool{}
+	for _, c := range w.Clients {
+		for _, sc := range w.H.Conns[c.connMark:] {
+			if sc.ServerSide && sc.LocalAddr().(*vnet.TCPAddr).Port == sw.BindPort {
+				ctl[sc] = true
+				break
+			}
+		}
+	}
+	var out []*vnet.StreamConn
+	for _, sc := range w.H.OpenConns() {
+		if sc.ServerSide && !ctl[sc] && sc.Out > 0 && sc.LocalAddr().(*vnet.TCPAddr).Port == sw.BindPort {
+			out = append(out, sc)
+		}
+	}
+	return out
 }
 
 // Backend is a local service: echoes (or sinks) and records everything it receives per connection.
@@ -84,7 +109,7 @@ func (w *World) StartClient(name, user string, proxies []v1.ProxyConfigurer, vis
 	if err != nil {
 		panic(fmt.Sprintf("tunworld: NewService: %v", err))
 	}
-	c := &Client{Name: name, Svc: svc, Cfg: cfg}
+	c := &Client{Name: name, Svc: svc, Cfg: cfg, connMark: len(w.H.Conns)}
 	w.Clients = append(w.Clients, c)
 	go func() { _ = svc.Run(context.Background()) }()
 	return c
